@@ -244,6 +244,9 @@ RespFramesSound(scn, c) ==
         \/ i <= SentCount(scn) /\ data[i].id = scn.hd.frames[i].m
         \/ data[i].id < 0 /\ HandlerFaulty(scn)
 
+SrvIsConnectStream(scn) == SrvProto(scn.cfg, ProtoOf(scn.cl.form)) = "connect" /\ MethodInfo(scn.cl.method).stream # "unary"
+\* a Connect streaming backend put its end-of-stream flag on a data message: the stream ends there, well-formed
+EndFlagOnData(scn) == SrvIsConnectStream(scn) /\ \E i \in 1..SentCount(scn) : scn.hd.frames[i].fault \in {"flags:2", "flags:3"}
 C01(scn, obs) ==
     IF Rejected(scn) THEN {} ELSE
     LET c == obs.cl
@@ -256,7 +259,7 @@ C01(scn, obs) ==
       \cup (IF ClientSeesOk(obs) /\ disp /\ ~scn.hd.noread /\ ~scn.hd.ignore /\ Ids(TheDisp(obs).frames) # ReqIds(scn)
           THEN {"C01.OkButRequestDiffers"} ELSE {})
       \cup (IF ClientSeesOk(obs) /\ Ids(DataFrames(c.frames)) # RespIds(scn) /\ ~(scn.hd.exit = "panic")
-               /\ ~(PassThru(scn) /\ HandlerFaulty(scn))
+               /\ ~(PassThru(scn) /\ HandlerFaulty(scn)) /\ ~EndFlagOnData(scn)
           THEN {"C01.OkButResponseDiffers"} ELSE {})
       \cup (IF Faithful(scn) /\ scn.hd.end.code = 0 /\ ~Ok(obs) THEN {"C01.FaithfulCallFails"} ELSE {})
 
@@ -276,7 +279,9 @@ C09Faulty(scn) ==
     \/ scn.hd.fault \in {"badendjson", "badtrailerframe"}
     \/ \E k \in 0..9 : scn.hd.fault \in {"cutenv:" \o ToString(k), "cutpay:" \o ToString(k),
                                         "cutenvok:" \o ToString(k), "cutpayok:" \o ToString(k)}
-    \/ \E i \in 1..SentCount(scn) : scn.hd.frames[i].fault # ""
+    \* (flag 2 on a Connect streaming backend's frame IS its end-of-stream flag: a data message sent under it is
+    \*  a well-formed - if unexpected - end of the stream whenever its payload reads as JSON; not a flag fault)
+    \/ \E i \in 1..SentCount(scn) : scn.hd.frames[i].fault # "" /\ ~(scn.hd.frames[i].fault \in {"flags:2", "flags:3"} /\ SrvIsConnectStream(scn))
     \/ scn.hd.end.how = "missing"
     \* a declared Content-Length matters where the transcoder frames the message with it:
     \* un-enveloped backend, enveloped client, payload passed on without re-encoding
@@ -290,7 +295,11 @@ C09(scn, obs) ==
       (IF ClientSeesOk(obs) THEN {"C09.FaultSurfacedAsSuccess"} ELSE {})
       \* (when the backend stops inside a frame that was already being streamed to the client the
       \*  response can only break off; otherwise there must be a terminal disposition)
-      \cup (IF obs.cl.ends >= 1 \/ obs.cl.status >= 400 \/ Truncated(obs) THEN {} ELSE {"C09.NoTerminalDisposition"})
+      \* (the error's end frame is then written into the space the announced payload should have taken; when it
+      \*  happens to fill that space exactly, the client sees one complete frame of garbage instead of a partial one)
+      \cup (IF obs.cl.ends >= 1 \/ obs.cl.status >= 400 \/ Truncated(obs)
+               \/ (HandlerMidFrame(scn) /\ \E i \in DOMAIN obs.cl.frames : obs.cl.frames[i].id \in {-1, -2})
+            THEN {} ELSE {"C09.NoTerminalDisposition"})
       \cup (IF obs.ret.stuck THEN {"C09.Hang"} ELSE {})
 
 (***************************************************************************)
